@@ -488,6 +488,81 @@ def linear_extensions_one(H):
 
 
 # ---------------------------------------------------------------------------
+# (e) one LONG history in one process: thresholds (pools that fill, counters that wrap, tables built after N uses)
+
+def _soak_task(task):
+    """n complete A/B exchanges one after the other on one parameter set, every message and key compared with the reference
+    model; a victim session is started first and finished last (valid key on a snapshot; its own reflected message must still be
+    refused), so that it stays half-open across all the others"""
+    name, n = task
+    acc = Acc()
+    inst, why = T.try_get(name)
+    if inst is None:
+        acc.degrade("%s unavailable: %s" % (name, why))
+        return acc
+    R, rp, q = inst.ref, inst.rp, inst.q
+    vpw = b"victim"
+    vw = R.pw_scalar(vpw)
+    victim = inst.new("A", vpw, (b"v", b"w"), 12345 % q)
+    vmsg = victim.start()
+    fam = inst.kind if inst.small else inst.name
+    for i in range(n):
+        pw = b"pw-%d" % (i % 7)
+        w = R.pw_scalar(pw)
+        x, y = (i * 7919 + 3) % q, (i * 104729 + 11) % q
+        a = inst.new("A", pw, (b"", b""), x)
+        b = inst.new("B", pw, (b"", b""), y)
+        ma, mb = T.observe(a.start), T.observe(b.start)
+        ka = T.observe(a.finish, mb[1]) if mb[0] == "ok" else ("exc", "-")
+        acc.n(transitions=3)
+        ea = RS.finish(rp, "A", pw, w, (b"", b""), x, RS.message(rp, "B", w, y))
+        if ma != ("ok", RS.message(rp, "A", w, x)) or mb != ("ok", RS.message(rp, "B", w, y)) or (ea[0] == "key" and ka != ("ok", ea[1])):
+            acc.violation("C16/soak/%s/session-differs-from-definition" % fam,
+                          {"what": "session #%d of a long history in one process does not produce the message/key defined by its own arguments" % i,
+                           "replay": {"fn": "soak", "name": name, "n": i + 1}, "expected": "reference message/key", "observed": [ma[0], mb[0], ka[0]]})
+            break
+    refl = T.observe(T.snapshot(victim).finish, b"B" + vmsg[1:])
+    valid = RS.message(rp, "B", vw, 777 % q)
+    key = T.observe(T.snapshot(victim).finish, valid)
+    ek = RS.finish(rp, "A", vpw, vw, (b"v", b"w"), 12345 % q, valid)
+    if refl != ("exc", "ReflectionThwarted") or (ek[0] == "key" and key != ("ok", ek[1])):
+        acc.violation("C16/soak/%s/half-open-session-affected-by-others" % fam,
+                      {"what": "a session left half-open while %d other sessions ran no longer behaves as defined (reflection refused: %s)" % (n, refl),
+                       "replay": {"fn": "soak", "name": name, "n": n}, "expected": ["ReflectionThwarted", "reference key"], "observed": [refl, key[0]]})
+    acc.n(states=n, traces=1)
+    acc.seen((name, "soak", n))
+    acc.extra.setdefault("soak", {})[name] = n
+    return acc
+
+
+def _default_entropy_task(task):
+    """sessions built with the DEFAULT entropy source: no two of n sessions may report the same secret scalar (and each message is
+    the one defined for the scalar it reports)"""
+    n, = task
+    acc = Acc()
+    L = T.lib()
+    inst, why = T.try_get("ParamsEd25519")
+    if inst is None or L.sp.DefaultParams is not inst.params:
+        return acc
+    seen = {}
+    for i in range(n):
+        s = L.A(b"pw-%d" % (i % 3)) if i % 2 else L.S(b"pw-%d" % (i % 3))
+        m = T.observe(s.start)
+        x = T.read_scalar(inst, s) if m[0] == "ok" else None
+        acc.n(transitions=1)
+        if x is None:
+            continue
+        if x in seen:
+            acc.violation("C16/default-entropy/repeated-scalar", {"what": "sessions #%d and #%d built with the default entropy source drew the same secret scalar" % (seen[x], i),
+                          "replay": {"fn": "default", "n": i + 1}, "expected": "distinct scalars", "observed": [seen[x], i]})
+            break
+        seen[x] = i
+    acc.n(states=n, traces=1)
+    acc.seen(("default-entropy", n))
+    return acc
+
+
+# ---------------------------------------------------------------------------
 # (d) threads
 
 THREAD_HARNESSES = {
@@ -501,6 +576,9 @@ THREAD_HARNESSES = {
     "TH3/T23-S": [("T23", "S", b"pw1", 3), ("T23", "S", b"pw2", 6), ("T23", "S", b"pw1", 4)],
     # entropy streams whose first draw is rejected (negative scalar), different streams in the two threads
     "TH/T23-redraw": [("T23", "A", b"pw1", -3), ("T23", "B", b"pw2", -6)],
+    # a NEW group and parameter-set object for every explored execution: the threads make the first use of it
+    "TH/T23-fresh-params": [("T23!", "A", b"pw1", 3), ("T23!", "B", b"pw1", 6)],
+    "TH/T23-fresh-params-S": [("T23!", "S", b"pw1", 3), ("T23!", "A", b"pw2", 6)],
     "TH/T509-redraw": [("T509", "S", b"pw1", -3), ("T509", "S", b"pw2", -100)],
 }
 
@@ -508,8 +586,14 @@ THREAD_HARNESSES = {
 def thread_bodies(hname):
     specs = THREAD_HARNESSES[hname.split("@")[0]]
     mk = []
+    fresh = {}
     for k, (key, side, pw, x) in enumerate(specs):
-        inst = pinst(key)
+        if key.endswith("!"):
+            if key not in fresh:
+                fresh[key] = T.int_toy(key[:-1])      # new IntegerGroup + new _Params, shared by the threads of this execution
+            inst = fresh[key]
+        else:
+            inst = pinst(key)
         redraw = x < 0 and inst.kind == "int"
         x = abs(x) % inst.q
         ids = C.ids_for(side, k + 1)
@@ -581,7 +665,8 @@ def _thread_task(task):
 
 def run_threads(acc, tier):
     bound = 1 if tier == "quick" else 2
-    names = ["TH/T23-same-params", "TH/T23-S-S", "TH/T23+T29", "TH/T23+T23'", "TH/T23-redraw", "TH3/T23-three-sessions"] + \
+    names = ["TH/T23-same-params", "TH/T23-S-S", "TH/T23+T29", "TH/T23+T23'", "TH/T23-redraw", "TH/T23-fresh-params", "TH/T23-fresh-params-S",
+             "TH3/T23-three-sessions"] + \
             ([] if tier == "quick" else ["TH/T509+T23", "TH/E37", "TH3/T23-S", "TH/T509-redraw", "TH/T23-same-params@opcode", "TH/T23+T23'@opcode",
                                          "TH/T23-redraw@opcode"])
     b1 = lambda n: 1 if (n == "TH/E37" or n.startswith("TH3/") or _opc(n)) else bound
@@ -626,11 +711,14 @@ def run(tier, seed):
                                                             ("T29", "A", b"pw3", 1, 4), ("T29", "B", b"pw3", 2, 3)], 3)
     for n in ["BFS4/T23/4step"] + (["BFS5/T23+T29/3step"] if tier != "quick" else []):
         tasks.append(("bfs", (n, tier)))
+    for nm, k in ([("Params1024", 350), ("T23", 4000)] if tier == "quick" else [("Params1024", 9000), ("Params2048", 2500), ("ParamsEd25519", 1500), ("T23", 100000)]):
+        tasks.append(("soak", (nm, k)))
+    tasks.append(("dflt", (300 if tier == "quick" else 1500,)))
     tasks.append(("mon", ("H3/T23/4step", tier)))
     tasks.append(("mon", ("H4=/E37/2step", tier)))
     if tier != "quick":
         tasks.append(("mon", ("H3/ParamsEd25519/2step", tier)))
-    order = {"bfs": 0, "mon": 1, "il": 2}
+    order = {"soak": -2, "dflt": -1, "bfs": 0, "mon": 1, "il": 2}
     tasks.sort(key=lambda t: order[t[0]])
     core.pmerge(_dispatch, tasks, acc)
     run_threads(acc, tier)
@@ -638,7 +726,7 @@ def run(tier, seed):
 
 
 def _dispatch(t):
-    return {"il": _interleave_task, "bfs": _bfs_task, "mon": _monitor_task}[t[0]](t[1])
+    return {"il": _interleave_task, "bfs": _bfs_task, "mon": _monitor_task, "soak": _soak_task, "dflt": _default_entropy_task}[t[0]](t[1])
 
 
 def replay(rec):
@@ -654,6 +742,8 @@ def replay(rec):
             if o != exp[i][len(ss[i].out) - 1]:
                 return o
         return o
+    if r["fn"] in ("soak", "default"):
+        return "re-run the check (long history)"
     if r["fn"] == "isolated":
         d = r["harness"]
         H = Harness(d["name"], [tuple(s[:5]) + ((tuple(s[5]),) if len(s) > 5 else ()) for s in d["specs"]], d["nsteps"])
